@@ -1,4 +1,38 @@
-//! C20 — placeholder (not registered in MANIFEST until built).
+//! C20 — retained content is returned intact or not at all.
+//!
+//! One scenario type over five sub-surfaces (one surface per run, swarm style):
+//!
+//! * `Cas`      — `MemoryTier` / `DiskTier` op histories (put, verified put with right and wrong
+//!                hash, get, has, pin, unpin, list, reopen) against `RefCas`; on the disk tier the
+//!                *disk* is the fault-bearing party: byte flips, truncation, extension, deletion,
+//!                replace-by-directory, leftover temp files, torn blobs between operations.
+//! * `Retain`   — `RetainedBlobIndex` over colliding / distinct semantic coordinates, byte ranges
+//!                and budgets, on `MemoryTier` and on the simulator-owned `EvictingBlobStore`.
+//! * `WscStore` — `FilesystemWscStore` through `WscStorePort`: stage → crash → reopen → commit,
+//!                torn envelope / marker files, leftover temp files.
+//! * `Export`   — record sets written to a real filesystem WAL, exported through the three
+//!                causal-history export profiles and re-imported, with the simulator-owned
+//!                `FaultyBlobStore` withholding or corrupting each referenced blob in turn.
+//!
+//! Oracle: small reference models (a map hash → bytes + pin set; a map coordinate → content;
+//! "file bytes equal the reference encoding"), checked after every operation.
+//!
+//! Violation classes: `wrong_bytes_returned`, `corruption_undetected`, `wrong_hash_write_accepted[:…]`,
+//! `wrong_hash_write_mutated_store`, `put_not_idempotent`, `pin_changed_content`,
+//! `reopen_lost_intact_blob`, `fault_affected_other_hash`, `temp_file_became_visible`,
+//! `temp_file_broke_op`, `staged_envelope_visible`, `torn_envelope_not_obstructed`,
+//! `torn_marker_not_obstructed`, `coordinate_alias`, `same_coordinate_different_content_accepted`,
+//! `export_roundtrip_mismatch`, `withheld_blob_import_ok`, `corrupt_blob_import_ok`, `panic:<where>`, …
+//!
+//! History: `wrong_hash_write_accepted:memory_tier_hash_already_present` (`MemoryTier::put_verified`
+//! returned `Ok` for arbitrary bytes when the expected hash was already stored) was found by this
+//! module on the original tree and repaired by a `fix:` commit; it is listed as fixed in
+//! known_findings.json and its scenario is re-executed on every run.
+
+mod cas;
+mod export;
+mod retain;
+mod wscstore;
 
 use serde::{Deserialize, Serialize};
 
@@ -6,26 +40,151 @@ use crate::kernel::{Outcome, PropertySpec, Rng, RunCtx, Scenario, Tier};
 
 pub const SPEC: PropertySpec = PropertySpec {
     id: "C20",
-    level: "exploration",
-    rule: "placeholder",
-    quick_runs: 1,
-    thorough_runs: 1,
-    real_components: &[],
-    stub_components: &[],
-    assumptions: &[],
-    fault_kinds: &[],
+    level: "fault_enumeration",
+    rule: "scenario = one of {CAS tier history (memory|disk) with file faults between ops, RetainedBlobIndex history over a small coordinate alphabet on MemoryTier|EvictingBlobStore, FilesystemWscStore stage/commit/crash/tear history, WAL record set pushed through the 3 export profiles with each referenced blob withheld/corrupted in turn}; non-trivial = at least one fault fired and a read happened after it, or an aliasing / idempotence / wrong-hash case was exercised; distinct = hash of the scenario",
+    quick_runs: 100_000,
+    thorough_runs: 1_200_000,
+    real_components: &[
+        "echo_cas::MemoryTier",
+        "echo_cas::DiskTier (real files on tmpfs)",
+        "echo_cas::RetainedBlobIndex",
+        "warp_core::wsc::FilesystemWscStore / WscStorePort / WscStoreEnvelope",
+        "warp_core::causal_wal::FilesystemWalStore + recover_filesystem_store + project_filesystem_wal_recovery (log production)",
+        "wsc_{ref_only,self_contained,cas_addressed}_wal_export + validate_wsc_*_wal_export",
+    ],
+    stub_components: &[
+        "EvictingBlobStore: echo_cas::BlobStore (honest map that loses unpinned / on command pinned blobs)",
+        "FaultyBlobStore: WscCasBlobStorePort (honest map that withholds or corrupts one blob)",
+        "the disk: file damage applied between operations by the simulator",
+    ],
+    assumptions: &[
+        "file faults are applied between operations (DiskTier and FilesystemWscStore do all I/O synchronously inside a call); crash = drop + reopen on the same directory; a torn blob / leftover temp is the directory image a crash inside put_verified / write_atomic can leave",
+        "leftover temp files use the dot-prefixed names echo-cas itself produces (a non-dot stray file in a shard directory is not a crash artifact of the tier)",
+        "has()/list() on a damaged blob file are unconstrained (they do not read bytes); get() is constrained",
+        "a lying BlobStore (returns wrong bytes) under RetainedBlobIndex is out of scope: integrity on read is the store's duty and is checked on the tiers themselves",
+        "export record sets are generated, written to a real filesystem WAL (submission / tick / retained-reading transactions, optional segment rotation), recovered and projected with the public causal_wal API; causal-anchor admissions are not generated (their builder is crate-private)",
+    ],
+    fault_kinds: &[
+        "fault.flip",
+        "fault.truncate",
+        "fault.extend",
+        "fault.delete",
+        "fault.replace_by_dir",
+        "fault.leftover_temp",
+        "fault.torn_blob",
+        "fault.evict",
+        "fault.crash_before_commit_marker",
+        "fault.torn_envelope",
+        "fault.torn_marker",
+        "fault.withheld_blob",
+        "fault.corrupt_blob",
+    ],
 };
 
+/// A blob from a tiny alphabet: content is a pure function of (sym, index), so equal
+/// (sym, len) recur as identical content and equal sym with shorter len is a strict prefix.
+#[derive(Clone, Copy, Debug, Serialize, Deserialize, PartialEq, Eq)]
+pub struct BlobSpec {
+    pub sym: u8,
+    pub len: u16,
+}
+
+impl BlobSpec {
+    pub fn bytes(&self) -> Vec<u8> {
+        const SEED: [u8; 4] = [0x00, 0x41, 0xA5, 0xFF];
+        let s = SEED[usize::from(self.sym) % SEED.len()];
+        (0..usize::from(self.len)).map(|i| s ^ (i as u8).wrapping_mul(29).wrapping_add((i / 64) as u8)).collect()
+    }
+}
+
+pub fn gen_blob(rng: &mut Rng, max_len: u16) -> BlobSpec {
+    let len = match rng.below(12) {
+        0 | 1 => 0,
+        2 => 1,
+        3 => *rng.pick(&[31u16, 32, 33, 63, 64, 65]),
+        4 => max_len,
+        _ => rng.range(2, u64::from(max_len.max(3))) as u16,
+    };
+    BlobSpec { sym: rng.below(4) as u8, len: len.min(max_len) }
+}
+
+pub fn gen_pool(rng: &mut Rng, lo: usize, hi: usize) -> Vec<BlobSpec> {
+    let n = rng.urange(lo, hi);
+    let max_len = *rng.pick(&[8u16, 40, 200, 200]);
+    let mut pool: Vec<BlobSpec> = (0..n).map(|_| gen_blob(rng, max_len)).collect();
+    // make a prefix pair and an exact duplicate likely
+    if n >= 2 && rng.chance(1, 3) {
+        let a = pool[0];
+        pool[1] = BlobSpec { sym: a.sym, len: a.len / 2 };
+    }
+    if n >= 3 && rng.chance(1, 4) {
+        pool[2] = pool[0];
+    }
+    pool
+}
+
+pub fn blake(bytes: &[u8]) -> [u8; 32] {
+    *blake3::hash(bytes).as_bytes()
+}
+
+pub fn short(h: &[u8; 32]) -> String {
+    hex::encode(&h[..6])
+}
+
+pub fn panic_class(at: &str) -> String {
+    format!("panic:{at}")
+}
+
 #[derive(Clone, Debug, Serialize, Deserialize)]
-pub struct C20 {
-    pub placeholder: u8,
+pub enum C20 {
+    Cas(cas::CasScenario),
+    Retain(retain::RetainScenario),
+    WscStore(wscstore::WscStoreScenario),
+    Export(export::ExportScenario),
 }
 
 impl Scenario for C20 {
-    fn generate(_rng: &mut Rng, _tier: Tier, _avoid: bool) -> Self {
-        C20 { placeholder: 0 }
+    fn generate(rng: &mut Rng, tier: Tier, avoid_known: bool) -> Self {
+        match rng.weighted(&[50, 20, 16, 14]) {
+            0 => C20::Cas(cas::CasScenario::generate(rng, tier, avoid_known)),
+            1 => C20::Retain(retain::RetainScenario::generate(rng, tier)),
+            2 => C20::WscStore(wscstore::WscStoreScenario::generate(rng, tier)),
+            _ => C20::Export(export::ExportScenario::generate(rng, tier)),
+        }
     }
-    fn execute(&self, _ctx: &mut RunCtx) -> Outcome {
-        Outcome::Ok
+
+    fn execute(&self, ctx: &mut RunCtx) -> Outcome {
+        let sig = serde_json::to_vec(self).unwrap_or_default();
+        let (out, nontrivial) = match self {
+            C20::Cas(s) => {
+                ctx.hit("reach.surface_cas");
+                s.execute(ctx)
+            }
+            C20::Retain(s) => {
+                ctx.hit("reach.surface_retain");
+                s.execute(ctx)
+            }
+            C20::WscStore(s) => {
+                ctx.hit("reach.surface_wsc_store");
+                s.execute(ctx)
+            }
+            C20::Export(s) => {
+                ctx.hit("reach.surface_export");
+                s.execute(ctx)
+            }
+        };
+        if nontrivial {
+            ctx.nontrivial(&sig);
+        }
+        out
+    }
+
+    fn shrink_candidates(&self) -> Vec<Self> {
+        match self {
+            C20::Cas(s) => s.shrink().into_iter().map(C20::Cas).collect(),
+            C20::Retain(s) => s.shrink().into_iter().map(C20::Retain).collect(),
+            C20::WscStore(s) => s.shrink().into_iter().map(C20::WscStore).collect(),
+            C20::Export(s) => s.shrink().into_iter().map(C20::Export).collect(),
+        }
     }
 }
